@@ -58,6 +58,7 @@ def main(argv=None):
     if a.replay:
         return do_replay(a.prop, a.replay)
     run = Run(a.prop, a.tier, seed, mod.LEVEL)
+    run.scratch = bool(a.source_root)
     try:
         mod.run(run, a.tier, seed, a)
     except Exception as e:
